@@ -104,6 +104,8 @@ def run(tier):
                       "explanation": "pointer-level ownership check on the implementation: a held value changed, or an object has two holders"},
                      "own_history_%d" % i)
     hists = oh.get("hist") or []
+    for h in hists:
+        h["ops"] = h.get("ops") or []     # a history without operations is printed as null by the harness
     mbad, mdiag, mshards, merr = ([], {}, 0, "")
     if ok_inst and hists:
         mbad, mdiag, mshards, merr = own09.model_check(hists)
